@@ -26,8 +26,8 @@ def common(tier):
         J('deposed2x3-b24:H2R2', 'deposed_twice', dict(n=3, batch_bytes=SMALLB), dict(H=2, R=2)),
         J('deposed2x3:H2R2E1', 'deposed_twice', dict(n=3), dict(H=2, R=2, E=1)),
         J('forwarded3:H1E1X1', 'forwarded', dict(n=3), dict(H=1, E=1, X=1)),
-        J('fig8-3-b8:H2R1E2', 'fig8', dict(n=3, batch_bytes=8), dict(H=2, R=1, E=2), max_states=600000),
-        J('fig8-3:H2R1E2', 'fig8', dict(n=3), dict(H=2, R=1, E=2), max_states=600000),
+        J('fig8-3-b8:H1R1E1', 'fig8', dict(n=3, batch_bytes=8), dict(H=1, R=1, E=1)),
+        J('fig8-3:H1R1E1', 'fig8', dict(n=3), dict(H=1, R=1, E=1)),
         J('ahead3:H4K1', 'ahead', dict(n=3), dict(H=4, K=1), dict(unrep=4)),
         J('fresh4:E2', 'fresh', dict(n=4), dict(E=2)),
         J('pipeline3:H2R1K1', 'reconnect_pipeline', dict(n=3), dict(H=2, R=1, K=1), dict(unrep=4)),
@@ -35,6 +35,8 @@ def common(tier):
     ]
     if not q:
         jobs += [
+            J('fig8-3-b8:H2R1E2', 'fig8', dict(n=3, batch_bytes=8), dict(H=2, R=1, E=2)),
+            J('fig8-3:H2R1E2', 'fig8', dict(n=3), dict(H=2, R=1, E=2)),
             J('fresh3:E2H1S1', 'fresh', dict(n=3), dict(E=2, H=1, S=1)),
             J('fresh4:E2H1', 'fresh', dict(n=4), dict(E=2, H=1)),
             J('fresh5:E2', 'fresh', dict(n=5), dict(E=2)),
